@@ -2,6 +2,7 @@ package main
 
 import (
 	"fmt"
+	"time"
 
 	"github.com/basecomplextech/spec/zzverif/seqmc/refcodec"
 	"github.com/basecomplextech/spec/zzverif/seqmc/tree"
@@ -71,6 +72,16 @@ func c02(a *vlib.Args) {
 	next := func() bool { idx++; return a.Mine(idx) }
 	nontrivial := int64(0)
 
+	// (e) nesting depth: the recursive parser on a message nested D levels deep, in a child process (shard 0 only)
+	if a.Shard == 0 {
+		c.deepNesting(1000, 0, 60*time.Second)
+		c.deepNesting(100000, 0, 120*time.Second)
+		if a.Thorough() {
+			c.deepNesting(2500000, 0, 600*time.Second)
+		} else {
+			c.deepNesting(400000, 64, 120*time.Second)
+		}
+	}
 	// order: the cheap explicit families first, the large exhaustive spaces last (a time budget then cuts the tail)
 	// (c) explicit table corruptions
 	for _, in := range tableCorruptions() {
@@ -208,7 +219,7 @@ func c02(a *vlib.Args) {
 	r.Bounds["short_input_max_len"] = maxLen
 	r.Bounds["distinct_valid_encodings_mutated"] = c.seen.Len()
 	r.Outcomes["surface calls"] = c.sf.calls
-	r.Rule = fmt.Sprintf("(a) ALL byte strings of length 0..%d; (b) for every distinct valid encoding (<=24 bytes) of the <=%d-node tree space: every single trailer position x 8 boundary byte values, every front truncation, 4 hostile prefixes, and (trees <=%d nodes in quick; all in thorough) every single-byte position x all 256 values plus every 2-position mutation of the 6-byte trailer over 8x8 boundary byte values; (c) explicit table corruptions (non-monotonic, beyond data size, unsorted, duplicate tags, small and big tables with 1..3 entries); (d) size-field arithmetic boundaries: bytes/string/struct/list/message trailers whose declared data and table sizes range over {0,1,real,real+-1,0xfc,0xfd,0xffff,0x10000,2^31-2..2^31+1,2^32-16..2^32-1,2^32-(other size)+-2}, each in every compact-int width (1/3/5/9 bytes). Each input is placed flush against the end and against the start of a PROT_NONE-guarded region and driven through the whole public read surface (Parse*/Open*/Decode*/tables/typed accessors/typed list wrappers/generated struct decode). non-trivial = non-empty and not a valid encoding itself", maxLen, trailerNodes, mutNodes)
+	r.Rule = fmt.Sprintf("(a) ALL byte strings of length 0..%d; (b) for every distinct valid encoding (<=24 bytes) of the <=%d-node tree space: every single trailer position x 8 boundary byte values, every front truncation, 4 hostile prefixes, and (trees <=%d nodes in quick; all in thorough) every single-byte position x all 256 values plus every 2-position mutation of the 6-byte trailer over 8x8 boundary byte values; (c) explicit table corruptions (non-monotonic, beyond data size, unsorted, duplicate tags, small and big tables with 1..3 entries); (d) size-field arithmetic boundaries: bytes/string/struct/list/message trailers whose declared data and table sizes range over {0,1,real,real+-1,0xfc,0xfd,0xffff,0x10000,2^31-2..2^31+1,2^32-16..2^32-1,2^32-(other size)+-2}, each in every compact-int width (1/3/5/9 bytes). (e) nesting depth: a message nested 1000 / 100000 levels deep, and 400000 levels under a 64 MiB stack limit (thorough: 2.5 million levels under the default limit), parsed in a child process. Each input is placed flush against the end and against the start of a PROT_NONE-guarded region and driven through the whole public read surface (Parse*/Open*/Decode*/tables/typed accessors/typed list wrappers/generated struct decode). non-trivial = non-empty and not a valid encoding itself", maxLen, trailerNodes, mutNodes)
 	r.Write(a)
 }
 
